@@ -1,5 +1,5 @@
 import Driver.Proto
-import ScrapliModel.Props.C19
+import ScrapliModel.OptionsSpec
 namespace Driver
 open Scrapli Scrapli.Options Scrapli.Gen.Options
 
@@ -76,17 +76,22 @@ def showRes : Except Err Config → String
   | .error .other => "err:other"
 
 def construct (k : Ctor) (plat : Option PlatformDef) (user : List OptInst) : String :=
-  let po : Option (List OptInst) := match plat with
+  let poModel : Option (List OptInst) := match plat with
     | none => some []
     | some p => platformAsOptions p
-  match po with
-  | none => "dom=0 model=panic spec=-"
+  let poSpec : Option (List OptInst) := match plat with
+    | none => some []
+    | some p => platformAsOptionsSpec p
+  let model := match poModel with
+    | none => "panic"
+    | some po => showRes (Scrapli.Options.construct k (po ++ user) defaults)
+  match poSpec with
+  | none => s!"dom=0 model={model} spec=-"
   | some po =>
     let opts := po ++ user
-    let eff := Scrapli.Options.C19.effective k opts
+    let eff := Scrapli.Options.effective k opts
     let dom := allValidB eff
-    let m := Scrapli.Options.construct k opts defaults
-    let s := Scrapli.Options.C19.specConfig k opts defaults
+    let s := Scrapli.Options.specConfig k opts defaults
     -- hypotheses of `invalid_is_badoption` / `invalid_log_level_is_badoption`
     let badArg := fun (o : OptInst) => !argValid (spec o.opt) o
     let invDriver := k != .logging &&
@@ -94,9 +99,9 @@ def construct (k : Ctor) (plat : Option PlatformDef) (user : List OptInst) : Str
       opts.all (fun o => o.opt != .WithDefaultLogger || o.envOk)
     let invLog := k == .logging && opts.any (fun o => o.opt == .logging_WithLevel && badArg o) &&
       opts.all (fun o => (failsOn .logging_Instance o).isNone || (o.opt == .logging_WithLevel && badArg o))
-    if dom then s!"dom=1 model={showRes m} spec={showRes s}"
-    else if invDriver || invLog then s!"dom=1 model={showRes m} spec=err:badoption"
-    else s!"dom=0 model={showRes m} spec=-"
+    if dom then s!"dom=1 model={model} spec={showRes s}"
+    else if invDriver || invLog then s!"dom=1 model={model} spec=err:badoption"
+    else s!"dom=0 model={model} spec=-"
 
 end C19
 
@@ -115,7 +120,7 @@ def handleC19 : List String → String
       toHex e.name ++ ":" ++ toHex (ofStr e.documented))
   | ["compat", k, opts] =>
     match C19.parseCtor k, C19.parseOpts opts with
-    | some k, some o => b2s (pairwiseB compatB (Scrapli.Options.C19.effective k o))
+    | some k, some o => b2s (pairwiseB compatB (Scrapli.Options.effective k o))
     | _, _ => "bad-op"
   | _ => "bad-op"
 
